@@ -89,27 +89,6 @@ theorem qsortAux_perm [DecidableEq α] (lt : α → α → Bool) : ∀ (f : Nat)
             rw [h2, Option.bind_some] at h
             exact ((ih xs' _ _ ys h).trans (ih r.1 _ _ xs' h2)).trans (partLoop_perm lt p _ _ xs _ _ r h1)
 
-/-- insertion sort: the specification of "the sorted sequence" for a total order given as `lt` -/
-def insSorted (lt : α → α → Bool) (x : α) : List α → List α
-  | [] => [x]
-  | y :: t => if lt y x then y :: insSorted lt x t else x :: y :: t
-
-def isort (lt : α → α → Bool) : List α → List α
-  | [] => []
-  | x :: t => insSorted lt x (isort lt t)
-
-/-- all lists of length `n` over the alphabet `as` -/
-def listsOf (as : List Nat) : Nat → List (List Nat)
-  | 0 => [[]]
-  | n + 1 => (listsOf as n).flatMap fun l => as.map fun a => a :: l
-
-def qsOK (l : List Nat) : Bool := qsortList (fun a b => decide (a < b)) l == some (isort (fun a b => decide (a < b)) l)
-
-def qsAll (as : List Nat) (n : Nat) : Bool := (listsOf as n).all qsOK
-
-
-def qsUpTo (as : List Nat) (n : Nat) : Bool := (List.range (n + 1)).all (qsAll as)
-
 theorem qsortList_perm [DecidableEq α] (lt : α → α → Bool) {xs ys : List α} (h : qsortList lt xs = some ys) : ys.Perm xs :=
   qsortAux_perm lt _ xs _ _ ys h
 
